@@ -427,6 +427,12 @@ def _depth_counter_attr(ctx) -> Optional[Tuple[str, Func, ast.If]]:
     return None
 
 
+def _reinit(ctx):
+    from .isolation import reinitialisers
+
+    return reinitialisers(ctx)
+
+
 def rule_depth_budget_shared(ctx, rep, rid: str) -> None:
     """Nested interpreters (eval, Function, host-driven calls) run on the same host stack as the interpreter that
     created them, so the nesting counter has to be one shared cell: adopted by reference when a nested
@@ -479,6 +485,9 @@ def rule_depth_budget_shared(ctx, rep, rid: str) -> None:
                     if m.name == "__init__" and isinstance(val, (ast.List, ast.Dict)) or (isinstance(val, ast.Call) and call_name(val) in ("list", "dict")):
                         init_ok = True
                         rep.ok(rid, key, {"initial": short(val, 30)})
+                    elif id(m) in _reinit(ctx) and isinstance(val, ast.List):
+                        # preparing the interpreter for another top-level run stands for construction
+                        rep.ok(rid, key, {"initial": short(val, 30), "re-initialiser": m.name})
                     elif adopted and not source_is_innermost:
                         rep.bad(rid, key, f"{m.qual} re-binds self.{attr} ({short(n, 50)}) although nested interpreters adopt it by assignment: each interpreter then counts on a private copy, and since the interpreter they adopt from is not replaced by the nested one while it runs, an eval/Function nested inside another starts again from the outer value", f"{m.module.rel}:{n.lineno}")
                     else:
